@@ -27,7 +27,7 @@ WITNESS = {
     "standin_rewrites": ("src/optimizer/mod.rs", "26 programs x 7 optimizer configurations x 4 engine instances, 4 small relations"),
     "standin_value_roundtrip": ("src/storage_engine/mod.rs", "14 relations (one per value kind, Nulls in typed columns, vectors, 4 mixed-kind) x {WAL replay, save + restart}"),
     "standin_pagination_e2e": ("src/protocol/handler.rs", "Handler::query_program on 10 rows: sort {none,asc,desc} x limit {1,3,4,10,15} x offset {absent,0,2,3,9,12}"),
-    "standin_vector_laws": ("src/vector_ops.rs", "8 dimensions (0..33) x 60 pseudo-random vector pairs incl. zero/negative/huge/tiny elements; 36 LSH bucket/cache-state sequences"),
+    "standin_vector_laws": ("src/vector_ops.rs", "8 dimensions (0..33) x 60 pseudo-random vector pairs incl. zero/negative/huge/tiny elements; 36 LSH bucket/cache-state sequences; history independence over 14 (vector, table, bits) configurations incl. table indices congruent mod 2^32"),
     "standin_schema_e2e": ("src/protocol/handler.rs", "Handler::query_program: 12 declared column types (vector(N) up to 1536) x non-conforming literals, mixed bulk insert / single bad row / conforming insert"),
     "standin_delete": ("src/storage_engine/mod.rs", "relations of 0..300 tuples x 7 delete batches mixing present/absent/repeated tuples"),
     "standin_histories_clean": ("src/storage_engine/mod.rs", "every clean history of length <= 3 (thorough 5) over {insert,delete} x 2 tuples + save/compact/restart steps, with and without a final save; one bulk history (4200 inserts, 1404 deletes)"),
@@ -57,7 +57,7 @@ def run(unit, repo, root, synced=False, group=None, tier=None):
         return {"status": "error", "detail": "no witness module for unit %s" % unit}
     rel, bound = WITNESS[unit]
     t0 = time.time()
-    if not synced:
+    if not synced and not kani_run._SYNCED:
         kani_run.sync(repo)
     inject_all(group or [unit], root)
     env = dict(os.environ, CARGO_NET_OFFLINE="true", VERIF_TIER=tier or os.environ.get("VERIF_TIER", "quick"))
